@@ -96,7 +96,15 @@ def main():
         os.makedirs(dst, exist_ok=True)
         print("==", sid, flush=True)
         meta = {"id": sid, "property": prop, "origin": "independent sub-agent given only the property text and a scratch worktree"}
-        if do_confirm:
+        old_meta = {}
+        if os.path.exists(os.path.join(dst, "meta.json")):
+            try:
+                old_meta = json.load(open(os.path.join(dst, "meta.json")))
+            except Exception:
+                old_meta = {}
+        if old_meta.get("confirmation", {}).get("demo_with_change"):
+            meta["confirmation"] = old_meta["confirmation"]
+        elif do_confirm:
             meta["confirmation"] = confirm(src)
             print("   confirm:", meta["confirmation"], flush=True)
         shutil.copy(os.path.join(src, "patch.diff"), os.path.join(dst, "patch.diff"))
@@ -105,7 +113,15 @@ def main():
         with open(os.path.join(dst, "README.txt"), "w") as f:
             f.write(readme)
         meta["needs"] = re.sub(r"\s+", " ", readme)[:1500]
-        props = all_props or sorted(PROPS)
+        patch_text = open(os.path.join(src, "patch.diff")).read()
+        renet_side = ["C01", "C02", "C03", "C06", "C08", "C09", "C11", "C12", "C13", "C14", "C15", "C16", "C20"]
+        netcode_side = ["C04", "C05", "C07", "C10", "C13", "C16", "C17", "C18", "C19", "C20"]
+        touched = []
+        if "renet/src" in patch_text:
+            touched += renet_side
+        if "renetcode/src" in patch_text or "renet_netcode/src" in patch_text:
+            touched += netcode_side
+        props = all_props or [p for p in sorted(set(touched + [prop])) if p in PROPS]
         meta["checks"] = run_checks(os.path.join(dst, "patch.diff"), props)
         caught = [p for p, r in meta["checks"].items() if isinstance(r, dict) and r["rc"] != 0]
         meta["caught_by"] = caught
